@@ -24,12 +24,24 @@ def std_run(pid, tier, seed, work, c):
             states += r["distinct"]
             trans += r["generated"]
     shards = c.get("shards", {}).get(tier, 4)
+    gen_args = []
+    for gspec in c.get("generators", []):
+        gout = os.path.join(work, gspec["out"])
+        gcfg = gspec["cfg"] if tier == "quick" or "cfg_thorough" not in gspec else gspec["cfg_thorough"]
+        r = R.run_tlc(gspec["module"], gcfg, os.path.join(work, "gen"), env={gspec["env"]: gout},
+                      workers=1, timeout=gspec.get("timeout", 600))
+        if not r["ok"] or not os.path.exists(gout):
+            raise R.Machinery(f"generator {gspec['module']} failed:\n" + R.tlc_error_excerpt(r["out"]))
+        model_info.append({"module": gspec["module"], "cfg": gcfg, "role": "TLC-generated cases for replay",
+                           "wall_s": round(r["wall"], 1)})
+        gen_args += [gspec["arg"], gout]
+    os.environ["VERIF_TMP"] = work
     merged = {"accepted": 0, "n": 0, "rejected": [], "states": 0, "distinct": 0}
     batches_all = []
     drv_summaries = []
     for d in c["drivers"]:
         s = R.run_driver(d["module"], os.path.join(work, "drv_" + d["module"].split(".")[-1]), tier, seed,
-                         shards=shards, timeout=d.get("timeout", 3000))
+                         shards=shards, timeout=d.get("timeout", 3000), extra=list(d.get("args", [])) + gen_args)
         drv_summaries.append(s)
         mg = R.validate_batches(d["trace"], s["batches"], os.path.join(work, "val_" + d["trace"]),
                                 timeout=d.get("tlc_timeout", 1800))
@@ -110,4 +122,60 @@ CHECKS["C05"] = {
         "minimum depths in expansion-depthing mode are only judged on grammars made of symbols and base types",
         "the usable sub-grammar may additionally register abstract ancestors of reachable classes",
     ],
+}
+
+_SEARCH_GEN = [{"module": "Gen_Search", "cfg": "Gen_Search.cfg", "cfg_thorough": "Gen_Search_thorough.cfg",
+                "env": "GEN_OUT", "out": "gen_search.json", "arg": "--gen"}]
+_SEARCH_MODELS = [
+    {"module": "MC_Search", "cfg": "MC_Search_quick.cfg", "cfg_thorough": "MC_Search.cfg", "workers": 12, "timeout": 1500},
+]
+_SEARCH_ASSUME = [
+    "fitness functions used by the drivers are integer valued, so aggregates are exact in TLC",
+    "individuals are identified by a token stamped on their phenotype by a delegating Representation (public API)",
+    "fitness histories replayed into the code are generated by TLC (Gen_Search): all sequences over 3 (4) values up "
+    "to length 5 (4) in the quick tier, 7 (5) in the thorough tier",
+]
+
+CHECKS["C12"] = {
+    "title": "the reported best really is the best",
+    "run": std_run,
+    "generators": _SEARCH_GEN,
+    "models": _SEARCH_MODELS,
+    "drivers": [{"module": "harness.drv_search", "trace": "Trace_Search", "args": ["--prop", "C12"]}],
+    "shards": {"quick": 2, "thorough": 12},
+    "rule": "one trace per tracker session (a TLC-generated fitness history x direction x batch partition) or per real "
+            "search run (algorithm x budget x step composition x representation); distinct by content",
+    "assumptions": _SEARCH_ASSUME,
+}
+CHECKS["C13"] = {
+    "title": "fitness from the phenotype, once, counted honestly; parallel = sequential",
+    "run": std_run,
+    "generators": _SEARCH_GEN,
+    "models": _SEARCH_MODELS + [
+        {"module": "MC_Parallel", "cfg": "MC_Parallel.cfg", "workers": 4},
+        {"module": "MC_Parallel", "cfg": "MC_Parallel_completion.cfg", "workers": 4, "expect_violation": "is violated"},
+    ],
+    "drivers": [{"module": "harness.drv_search", "trace": "Trace_Search", "args": ["--prop", "C13"]}],
+    "shards": {"quick": 2, "thorough": 12},
+    "rule": "as C12, plus direct calls of both evaluators on identical populations (mixed evaluated/new members, a "
+            "duplicated object, singletons) with a program-determined fitness logged across worker processes",
+    "assumptions": _SEARCH_ASSUME + ["real worker scheduling is perturbed by process start-up only; exhaustiveness over "
+                                     "schedules is model-level (GEParallel, all interleavings of <= 4 tasks on <= 3 workers)"],
+}
+CHECKS["C14"] = {
+    "title": "searches terminate and stop at the first budget check after the budget is met",
+    "run": std_run,
+    "generators": _SEARCH_GEN,
+    "models": _SEARCH_MODELS + [
+        {"module": "MC_Search", "cfg": "MC_Search_live_quick.cfg", "cfg_thorough": "MC_Search_live.cfg", "workers": 12,
+         "timeout": 1500},
+        {"module": "MC_Search", "cfg": "MC_Search_nofresh.cfg", "workers": 4,
+         "expect_violation": "Temporal property Terminates was violated"},
+    ],
+    "drivers": [{"module": "harness.drv_search", "trace": "Trace_Search", "args": ["--prop", "C14"]}],
+    "shards": {"quick": 2, "thorough": 12},
+    "rule": "as C12; every budget check is an event (count, verdict, best component rank-encoded with the target "
+            "thresholds); a watchdog turns 40 consecutive checks without progress of the counter into a lasso event",
+    "assumptions": _SEARCH_ASSUME + ["termination on the implementation is observed through a watchdog (40 checks without "
+                                     "progress), the liveness property itself is checked on the model under weak fairness"],
 }
